@@ -212,7 +212,7 @@ def _array_case(rng, q, tier):
 
 def gen_cases(seed, tier):
     rng = np.random.default_rng([seed, 19])
-    n = 9000 if tier == 'quick' else 300000
+    n = 6000 if tier == 'quick' else 300000
     cases = []
     qa = qf = 0
     for i in range(n):
